@@ -444,18 +444,41 @@ func genCopy(t *rapid.T) Case {
 		}
 		c.Copy.Hosts = append(c.Copy.Hosts, h)
 	}
-	nj := rapid.IntRange(2, 6).Draw(t, "nj")
+	nj := rapid.IntRange(2, 8).Draw(t, "nj")
 	for i := 0; i < nj; i++ {
 		c.Copy.Jobs = append(c.Copy.Jobs, CopyJob{
+			Op:     rapid.SampledFrom(copyOps).Draw(t, "op"),
 			Src:    rapid.SampledFrom(endpointChoices(nh)).Draw(t, "src"),
 			Tgt:    rapid.SampledFrom(endpointChoices(nh)).Draw(t, "tgt"),
 			Blob:   rapid.IntRange(0, 2).Draw(t, "blob"),
-			Cancel: rapid.SampledFrom([]int{0, 0, 0, 0, 0, 1, 2, 3, 4, 5, 6}).Draw(t, "cancel"),
+			Cancel: rapid.SampledFrom([]int{0, 0, 0, 0, 0, 0, 0, 1, 2, 3, 4, 5, 6}).Draw(t, "cancel"),
 		})
 	}
+	c.Copy.Faults = rapid.SliceOfN(rapid.Custom(func(t *rapid.T) CopyFault {
+		f := CopyFault{
+			Host:  rapid.IntRange(0, nh-1).Draw(t, "fhost"),
+			Class: rapid.SampledFrom(copyFaultClasses).Draw(t, "fclass"),
+			Nth:   rapid.IntRange(0, 3).Draw(t, "fnth"),
+			Times: rapid.SampledFrom([]int{1, 1, 2, 4, -1}).Draw(t, "ftimes"),
+			Kind:  rapid.SampledFrom([]string{"status", "status", "status", "reset-before", "reset-after", "truncate", "truncate-clean"}).Draw(t, "fkind"),
+		}
+		if f.Kind == "status" {
+			f.Status = rapid.SampledFrom([]int{500, 500, 502, 504, 429, 408, 503, 400, 403, 404, 416}).Draw(t, "fstatus")
+		}
+		if f.Kind == "truncate" || f.Kind == "truncate-clean" {
+			f.At = rapid.SampledFrom([]int{0, 1, 100, 2999}).Draw(t, "fat")
+		}
+		return f
+	}), 0, 4).Draw(t, "faults")
 	c.Procs = rapid.SampledFrom([]int{1, 2, 4, 16}).Draw(t, "procs")
 	return c
 }
+
+var copyOps = []string{"copy", "copy", "copy", "put-seek", "put-noseek", "put-noseek", "put-badseek", "put-stream", "get-eof", "get-early",
+	"get-handoff", "head", "mget", "mhead", "mput", "tags", "referrers"}
+
+var copyFaultClasses = []string{"", "", "upload-put", "upload-put", "upload-post", "upload-patch", "blob-get", "blob-head", "manifest-get",
+	"manifest-put", "manifest-head", "tags-list", "referrers"}
 
 // endpointChoices: every registry host three times, the layout once.
 func endpointChoices(nh int) []int {
